@@ -135,7 +135,7 @@ func c06Run(ci interface{}, rec *Rec) {
 				for j, x := range cl {
 					neg[j] = -x
 				}
-				sat, _, ok := ref.DPLL(c.CNF, n, neg, 20_000_000)
+				sat, _, ok := ref.DPLL(c.CNF, n, neg, oracleBudget(20_000_000))
 				consequence, decided = !sat, ok
 			}
 			if !decided {
